@@ -2,7 +2,11 @@
 
 A tick is one PY_START event or one backward JUMP event in a code object whose file lives under the
 gambatools source directory.  Ticks are a pure function of (code, input, hash seed); wall-clock time is
-never read.  When the budget is exceeded SimTimeout (a BaseException, so that the library's and the
+never read.  A second, cheaper livelock signature is "one loop iterated N times in a row within one invocation of a library
+function" (per code object: the same backward jump repeated with no other backward jump of that code object and no
+re-entry in between; calls made from the loop body do not reset it): the
+library's hang sites are call-free `while` loops whose cost per iteration grows (list.insert(0, ..)), so waiting
+for the full tick budget there would cost quadratic wall time.  When the budget is exceeded SimTimeout (a BaseException, so that the library's and the
 checkers' `except Exception` cannot swallow it) is raised inside the monitored frame.
 """
 import sys
@@ -19,6 +23,9 @@ class Clock:
     def __init__(self, src_dir):
         self.src_dir = os.path.realpath(src_dir) + os.sep
         self.ticks = 0
+        self.run = 0
+        self.spin = {}          # code object -> [offset of its last backward jump, consecutive repetitions]
+        self.tight = None       # livelock signature: that many backward jumps without a single call
         self.budget = None
         self.active = False
         self._cache = {}
@@ -35,6 +42,8 @@ class Clock:
         if not self._mine(code):
             return sys.monitoring.DISABLE
         self.ticks += 1
+        self.run = 0
+        self.spin.pop(code, None)
         if self.budget is not None and self.ticks > self.budget:
             self.budget = None  # fire once
             raise SimTimeout('tick budget exceeded at %s:%s' % (code.co_filename, code.co_name))
@@ -44,9 +53,17 @@ class Clock:
             return sys.monitoring.DISABLE
         if dst < src:
             self.ticks += 1
-            if self.budget is not None and self.ticks > self.budget:
+            e = self.spin.get(code)
+            if e is not None and e[0] == src:
+                e[1] += 1
+                self.run = e[1]
+            else:
+                self.spin[code] = [src, 1]
+                self.run = 1
+            if self.budget is not None and (self.ticks > self.budget or (self.tight is not None and self.run > self.tight)):
+                why = 'tick budget exceeded' if self.ticks > self.budget else 'spinning loop: one loop iterated %d times in a row within one invocation' % self.run
                 self.budget = None
-                raise SimTimeout('tick budget exceeded at %s:%s' % (code.co_filename, code.co_name))
+                raise SimTimeout('%s at %s:%s' % (why, code.co_filename, code.co_name))
 
     def install(self):
         m = sys.monitoring
@@ -65,8 +82,11 @@ class Clock:
         m.free_tool_id(TOOL)
         self.active = False
 
-    def start(self, budget):
+    def start(self, budget, tight=None):
         self.ticks = 0
+        self.run = 0
+        self.spin = {}
+        self.tight = tight
         self.budget = budget
 
     def stop(self):
